@@ -487,10 +487,10 @@ package circuitbreaker
 //@   premise e.halfOpenListener == nil || e.stateChangedListener == nil || e.halfOpenListener != e.stateChangedListener
 //@   ext now := ret(e.clock.CurrentUnixNano, 1)
 //@   let k0 := old(kindOf(e.state))
-//@   ensures [C04.pre.refused_erropen] result != nil ==> result.Error == ErrOpen && result.Done && !result.Success && !result.SuccessAll
+//@   ensures [C04.pre.refused_erropen+C03.executor.refusal_is_erropen] result != nil ==> result.Error == ErrOpen && result.Done && !result.Success && !result.SuccessAll
 //@   ensures [C04.pre.open_refuses] k0 == OpenState && now - old(asref(e.state, *openState).startTime) < old(asref(e.state, *openState).delay) ==> result != nil
 //@   ensures [C04.pre.closed_admits] k0 == ClosedState ==> result == nil
-//@   ensures [C04.pre.halfopen_bounded] k0 == HalfOpenState ==> (result == nil) == (old(asref(e.state, *halfOpenState).permittedExecutions) > 0) && old(asref(e.state, *halfOpenState)).permittedExecutions == old(asref(e.state, *halfOpenState).permittedExecutions) - b2i(result == nil)
+//@   ensures [C04.pre.halfopen_bounded+C03.executor.trial_permit_accounting] k0 == HalfOpenState ==> (result == nil) == (old(asref(e.state, *halfOpenState).permittedExecutions) > 0) && old(asref(e.state, *halfOpenState)).permittedExecutions == old(asref(e.state, *halfOpenState).permittedExecutions) - b2i(result == nil)
 //@   havoc
 //@   modifies e.circuitBreaker.state, alloftype(halfOpenState), calls(e.clock.CurrentUnixNano), calls(e.halfOpenListener), calls(e.stateChangedListener), calls(e.DelayFunc)
 
